@@ -26,6 +26,9 @@ static CASE_EPOCH: AtomicU64 = AtomicU64::new(0);
 static DESC_LEN: AtomicUsize = AtomicUsize::new(0);
 static mut DESC: [u8; 1024] = [0; 1024];
 static WATCHDOG_SECS: AtomicU64 = AtomicU64::new(0);
+/// Auxiliary position inside a case (e.g. BFS state index and operation index), printed on a crash.
+pub static AUX1: AtomicU64 = AtomicU64::new(0);
+pub static AUX2: AtomicU64 = AtomicU64::new(0);
 
 fn write_all_fd2(mut b: &[u8]) {
     while !b.is_empty() {
@@ -59,6 +62,10 @@ fn emit_crash(kind: &[u8], sig: u64) {
     write_all_fd2(fmt_u64(CUR_CASE.load(Ordering::SeqCst), &mut b));
     write_all_fd2(b" sig=");
     write_all_fd2(fmt_u64(sig, &mut b));
+    write_all_fd2(b" aux=");
+    write_all_fd2(fmt_u64(AUX1.load(Ordering::Relaxed), &mut b));
+    write_all_fd2(b":");
+    write_all_fd2(fmt_u64(AUX2.load(Ordering::Relaxed), &mut b));
     write_all_fd2(b" desc=");
     let n = DESC_LEN.load(Ordering::SeqCst).min(1024);
     #[allow(static_mut_refs)]
@@ -321,6 +328,29 @@ impl Ctx {
             let d = self.cur_desc.clone();
             self.samples.push(d);
         }
+        true
+    }
+
+    /// Declares a pseudo-case run by *every* shard (e.g. construction of seed
+    /// states shared by the following cases). Returns false when the supervisor
+    /// asked to skip it after a crash.
+    pub fn common_case(&mut self, desc: impl FnOnce() -> String) -> bool {
+        let idx = self.next_idx;
+        self.next_idx += 1;
+        if self.skip.contains(&idx) || self.only.is_some_and(|o| o != idx && false) {
+            return false;
+        }
+        self.cur_desc = desc();
+        let b = self.cur_desc.as_bytes();
+        let n = b.len().min(1024);
+        DESC_LEN.store(0, Ordering::SeqCst);
+        #[allow(static_mut_refs)]
+        unsafe {
+            DESC[..n].copy_from_slice(&b[..n]);
+        }
+        DESC_LEN.store(n, Ordering::SeqCst);
+        CUR_CASE.store(idx, Ordering::SeqCst);
+        CASE_EPOCH.fetch_add(1, Ordering::SeqCst);
         true
     }
 
